@@ -7,19 +7,108 @@ props = [json.loads(l) for l in open(os.path.join(V, "properties.jsonl"))]
 CLAIMS = {
  "C01": dict(
   level="model_checking", design="§3.4, §5 C01",
-  text="TLA+ reference semantics of views (spec/view/View.tla, written from the language and C++ references) evaluated by TLC on every buffer the real generated C++ view was run on: all byte strings over a per-program alphabet up to MaxSizeInBytes+2 for every struct/parameter sample of the feature catalogue; TLC decides equality of the whole observation vector and PrefixMonotone between each buffer and its prefix. Exhaustive within the stated alphabet/length bounds; beyond them nothing is claimed.",
+  text="TLA+ reference semantics of views (spec/view/View.tla, written from the language and C++ references, incl. the constant-folding rule of static ranges and the $min/$max size constants) evaluated by TLC on every buffer the real generated C++ view was run on: all byte strings over a per-program alphabet up to MaxSizeInBytes+2 for every struct/parameter sample of the feature catalogue and of TLC-generated programs (ProgGen.tla); TLC decides equality of the whole observation vector and PrefixMonotone between each buffer and its prefix. Exhaustive within the stated alphabet/length bounds; beyond them nothing is claimed.",
   note="Trusts TLC, g++, the abstract-program renderer (its output is what the real compiler parses; replay files carry the rendered .emb). Field widths <= 24 bits so values fit TLC integers; wide scalars are C02. Named modelling decisions: DESIGN.md §7.3.",
   technique="TLA+ reference semantics + TLC trace validation of recorded C++ view observations"),
+ "C02": dict(
+  level="model_checking", design="§3.4 Scalar, §5 C02",
+  text="Scalar.tla (bit-level decode of UInt/Int/Bcd/Flag/enum/Float patterns, byte order, bit numbering, value-type width) model-checked on small constants (ScalarMC, BVMC) and bound to the code: a generated driver instantiates the real run-time views for every (type, width, container, byte order) and dynamic offsets and, separately, real generated code for .emb modules; every (configuration, contents, Ok, Read, ValueType) record is compared by TLC (ScalarCheck.tla) with the specification. Contents: all-0, all-1, walking 1/0, nibble patterns, sign patterns, seeded fills - decoding is linear over bits, so these detect any wrong mapping, shift, mask or extension.",
+  note="Run-time level exhaustive over configurations; generated-code level sampled placements in quick. 64-bit values travel as byte lists (BV.tla). Floats: bit-pattern identity only.",
+  technique="TLA+ bit-vector semantics + TLC validation of recorded Read()/Ok() of real views"),
  "C03": dict(
   level="model_checking", design="§3.4, §5 C03",
-  text="Write actions of View.tla (CouldWrite, TryToWrite, frame condition, inverse of +/- virtuals). TLC -simulate generates write behaviours (ViewGen.tla), the real generated code replays them, TLC validates every verdict, every complete post-buffer and the observation vector after each write (ViewTrace.tla).",
+  text="Write actions of View.tla (CouldWrite, TryToWrite, frame condition, inverse of +/- virtuals). TLC -simulate generates write behaviours (ViewGen.tla), the real generated code replays them, TLC validates every verdict, every complete post-buffer and the observation vector after each write (ViewTrace.tla). Run-time level: CouldWriteValue / write-read-back / neighbour-bit preservation for all widths and symbolic 64-bit boundary values (Scalar.tla).",
   note="Sampled behaviours (seeded), not exhaustive; values at range and [requires] edges; widths <= 24 bits at generated-code level.",
   technique="TLC-generated behaviours replayed into generated C++ + TLC trace validation"),
+ "C04": dict(
+  level="exploration", design="§5 C04, §8",
+  text="TLC cannot observe an out-of-bounds access or UB: the specification supplies which calls the checked API permits in which state, the buffers (every byte string over the program alphabet up to MaxSize+2: empty, truncated, oversized, 0xff-filled) and TLC-generated behaviours (writes at range edges, overlapping copies, Equals, text round trips); the decisive observation is made by clang ASan+UBSan on exact-size heap buffers: a sanitizer report, an assert/EMBOSS_CHECK abort or a signal ends the trace and is a violation. The traces recorded from the sanitizer build are also validated by TLC against View.tla.",
+  note="clang-14 sanitizer semantics; accesses inside the allocation but outside a sub-view are invisible; exploration level, not model checking.",
+  technique="TLA+-generated buffers/behaviours replayed under ASan+UBSan (sanitizers as trace instrumentation)"),
+ "C05": dict(
+  level="model_checking", design="§3.3 Bounds, §5 C05",
+  text="Bounds.tla: concrete semantics and the interval x congruence domain; BoundsMC model-checks the transfer-function theorem (Sound arguments => Sound result, tightness, constants exact) on small ranges. Binding: TLC (BoundsGen) generates expressions over every operator; the real front end compiles them; for EVERY subexpression the inferred (min, max, modulus, remainder) is recorded and TLC (BoundsCheck) enumerates all environments: soundness, congruence, constant => singleton, tightness for single-occurrence expressions; BoundsWide checks the 64-bit gate with BigInt interval arithmetic.",
+  note="Leaves of 2-5 bits so all environments are enumerable; wide family exact only for single-occurrence expressions.",
+  technique="TLA+ abstract-interpretation spec + TLC validation of bounds recorded from the real IR"),
+ "C06": dict(
+  level="model_checking", design="§3.4 Text, §5 C06",
+  text="Text.tla: integer codec (EncodeInt/DecodeInt, malformed catalogue) model-checked on a small domain and bound to the real WriteIntegerToTextStream/DecodeInteger for all eight C++ integer types x bases x grouping (TextCheck.tla). Structure level: TLC-generated behaviours with text events on the catalogue programs; the real WriteToString output is parsed into a tree and TLC (ViewTrace!CheckText) decides names, presence, Skip/Emit, order after dependencies, values = field values, then UpdateFromText into a zeroed buffer succeeds and every emitted field reads back equal.",
+  note="Float text rendering excluded (bit-pattern round trip only); single-line output with comments is outside the documented re-readable set.",
+  technique="TLA+ text-format spec + TLC validation of recorded encoder/decoder and round-trip traces"),
+ "C07": dict(
+  level="exploration", design="§5 C07, §8",
+  text="Validity of C++ is decided by g++: the specification supplies the quantifier - accepted modules generated by TLC (ProgGen.tla programs over every feature of the view catalogue, the identifier-shape catalogue NameGen.tla) plus the repository corpus; for each, the header emitted with and without enum traits is compiled under -std=c++11/14/17 together with a full-instantiation driver (explicit instantiation of every generated view class, every enum helper, text methods) and static_asserts of every compile-time constant against the value in the front end's IR.",
+  note="exploration level: the verdict comes from the C++ compiler; g++ only (clang covered by C04's build).",
+  technique="TLA+-generated accepted modules compiled and fully instantiated with g++ under three standards"),
+ "C08": dict(
+  level="model_checking", design="§3.2, §5 C08",
+  text="CFG.tla (Earley recognizer, derivation checker, viable prefixes, ambiguity) + LRMachine.tla: TLC explores the shift-reduce machine on the tables the REAL generator built for a catalogue of grammars over ALL strings up to a bound (LRCheck invariants AcceptIffDerives, TreeIsDerivation, ErrorAtFirstNonViable, AmbiguousImpliesConflicts ...); TLC-enumerated small grammars (GrammarGen: exhaustive family + seeded samples) are given to the real lr1.Grammar(...).parser() and every recorded Parser.parse run on all strings up to the bound is validated by TLC (LRCases); the Emboss grammar is exercised with TLC-derived sentences and token mutations.",
+  note="Strings <= 5 (2 terminals) / 4 (3 terminals) in quick; Emboss sentences <= 60 tokens.",
+  technique="TLA+ CFG/LR-machine spec; TLC model checking on real tables + validation of recorded parses"),
+ "C09": dict(
+  level="model_checking", design="§5 C09",
+  text="LRBisim.tla: TLC explores the product of the shipped parser tables and tables generated now from the grammar in the source and the error examples; every reachable state pair must agree on action kind, shift/goto correspondence, reduce production, error code and default error: a bisimulation, hence identical behaviour on EVERY token sequence, independent of state numbering. GrammarEq.tla: production sets of shipped tables, module_ir and doc/grammar.md are equal; documented token table = tokenizer's.",
+  note="Exhaustive (finite automata). Trusts the JSON export of the table objects.",
+  technique="TLC bisimulation of the shipped and freshly generated LR(1) automata"),
+ "C10": dict(
+  level="model_checking", design="§3.1, §5 C10",
+  text="Lex.tla: a tokenizer written from the documented pattern table of doc/grammar.md (generic regex matcher, longest match, earliest pattern on ties, indentation stack) with the C10 properties as predicates; LexMC checks the machine exhaustively on short texts; LexCheck binds token lists recorded from the real tokenizer (exhaustive short lines, indentation texts, token soup, corpus and mutated corpus, Unicode line terminators): TLC compares with Tokenize(text) and evaluates Lossless, PositionsExact, LongestMatch, NewlinePerLine, IndentBalanced, classification on the RECORDED list.",
+  note="Line splitting follows str.splitlines() (named modelling decision).",
+  technique="TLA+ tokenizer spec from the documented pattern table + TLC validation of recorded token lists"),
+ "C11": dict(
+  level="model_checking", design="§5 C11",
+  text="Fmt.tla states the formatter as an abstract action Format(indent): same tokens up to layout (by the specification's own tokenizer Lex.tla), result parses, second application is a stutter, layout facts. FmtMC model-checks the abstract action exhaustively on short texts (meaning preserved along every behaviour, fixed points exist, every source has a result). FmtTrace validates recorded traces t0 -fmt-> t1 -fmt-> t2 of the real formatter (corpus, re-spaced corpus, TLC-derived grammar sentences with comments/docs/odd spacing) for several indent widths, incl. exceptions, the built-in self check and the emboss-format command.",
+  note="Layout beyond the stated facts (column alignment) is not specified.",
+  technique="TLA+ refinement spec of formatting + TLC validation of recorded format traces"),
+ "C12": dict(
+  level="model_checking", design="§3.3 Scope, §5 C12",
+  text="Scope.tla: scope tree, visibility classes, Resolve, canonical names, with CanonicalNamesUnique / ResolveIsLexical / AbbreviationsPrivate model-checked on all small scope trees (ScopeMC). ScopeGen (TLC) builds scope trees with reference sites whose intended target or failure class is known; the real front end (stopped after resolution) is run on the rendered modules; ScopeCheck (TLC) decides resolved target = intended, uniqueness of canonical names, error <=> failure class, no exception.",
+  note="Name pool of 3 names per kind; <= 2 modules + prelude.",
+  technique="TLA+ scoping spec + TLC validation of recorded resolutions"),
+ "C13": dict(
+  level="model_checking", design="§3.3 Typing, §5 C13",
+  text="Typing.tla: the documented operator signatures and position requirements; TypingMC checks that every generated base is well typed and every catalogue violation breaks exactly its rule. TypingGen (TLC) generates bases (must be accepted) and single-rule violations at enumerated sites (must be rejected with a non-synthetic error inside the mutated definition, no exception); TypingCheck decides every recorded compile.",
+  note="Expressions of depth <= 3; errors compared by kind and location, never by wording.",
+  technique="TLA+ typing spec + TLC-generated programs replayed into the real front end + TLC verdicts"),
+ "C14": dict(
+  level="model_checking", design="§3.3 Layout, §5 C14",
+  text="Layout.tla: documented physical-layout and attribute rules (width ranges, enum ranges, bits rules, arrays, explicit sizes, byte order, attribute placement/multiplicity/values, reserved words); LayoutMC model-checks the edit machine; LayoutGen (TLC) builds modules by edits sweeping the documented boundaries; every module is compiled by the real front end and LayoutCheck (TLC) decides accepted <=> realisable and error location.",
+  note="Ambiguous corners of the reference are left out and listed in evidence assumptions.",
+  technique="TLA+ layout-rule spec + TLC-generated boundary programs + TLC verdicts on recorded compiles"),
+ "C15": dict(
+  level="model_checking", design="§3.3 Deps, §5 C15",
+  text="Deps.tla: reference graph, HasCycle by transitive closure, SCCs, StableTopo; DepsOrderMC proves for ALL digraphs on small node sets that the greedy ordering loop terminates, yields a permutation, respects dependencies and is the identity on already ordered input. DepsGen enumerates/samples graphs realised as fields, enum values, parameters and module imports; the real front end is run to just after set_dependency_order; DepsCheck (TLC) decides cycle error <=> HasCycle, reported members = one SCC, StableTopo of the recorded order.",
+  note="All digraphs on <= 4 nodes + seeded larger graphs.",
+  technique="TLA+ dependency-graph spec: exhaustive MC of the ordering loop + TLC validation of recorded compiles"),
+ "C16": dict(
+  level="model_checking", design="§3.5, §5 C16",
+  text="Pipeline.tla is a monitor of the compiler process (import loop, parse cache, twelve passes with early exit and deferred synthetic errors, back end, report); PipelineMC model-checks the design and that defective variants are caught; TLC-enumerated pass-outcome scenarios are replayed into the real glue.process_ir; one event per spec action is recorded from the real front/back end and embossc for inputs none of which is chosen to be valid (bytes, token soup, grammar-shaped programs, mutations/truncations of the corpus, import sets) and TLC (PipelineTrace) evaluates Total, PassOrder, EarlyExit, deferred errors, ErrorsWellFormed and rendering at every step.",
+  note="Inputs bounded as in the property; a compilation must finish within 45 s / 3 GiB.",
+  technique="TLA+ pipeline monitor + TLC trace validation of recorded compilations"),
+ "C17": dict(
+  level="model_checking", design="§3.5, §5 C17",
+  text="Pipeline.tla (cache, counter, Pure): PipelineMC checks all schedules of <= 3 compilations over source sets sharing imports / anonymous bits / same file name with different text in 2 processes with restarts and 2 hash seeds, and that defective designs are caught; TLC-enumerated schedules are replayed in real interpreters (forked pristine in-process workers under two hash seeds; fresh embossc and emboss_front_end|emboss_codegen_cpp subprocesses with several PYTHONHASHSEED values and import-dir permutations); PipelineTrace validates cache/counter events and evaluates Pure on recorded output hashes (verdict, IR, header, diagnostics).",
+  note="No golden output: only a difference between two runs can raise an alarm.",
+  technique="TLC-enumerated compile schedules replayed in real interpreters + TLC trace validation"),
+ "C18": dict(
+  level="model_checking", design="§3.5 IRJson, §5 C18",
+  text="IRJson.tla models the IR class table (exported by reflection) and ToJson/FromJson on abstract trees; IRJsonMC checks WellFormed, FromJson(ToJson(t)) = t and idempotence on trees of every class and that defective variants are caught; for every IR the real front end produces (corpus + node-kind-covering family, final and intermediate IRs) the projected tree, the JSON written, the re-read tree and header hashes are validated by TLC (IRJsonCheck); the two-program pipeline is run as real subprocesses against embossc.",
+  note="Trees projected by reflection over ir_data field specs.",
+  technique="TLA+ serialization spec + TLC validation of recorded IR/JSON/header round trips"),
+ "C19": dict(
+  level="model_checking", design="§3.4 EnumSem, §5 C19",
+  text="EnumSem.tla: underlying type, enumerator set per enum_case spelling, FromName, ToName (first declared), IsKnown, field acceptance, over symbolic 64-bit landmarks; EnumMC model-checks it on a small family; EnumGen (TLC) emits the exhaustive landmark x maximum_bits x is_signed matrix and seeded multi-value enums; the real compiler decides acceptance, C++ drivers over the real generated headers record underlying type, enumerators, TryToGetEnumFromName, TryToGetNameFromEnum, EnumIsKnown, operator<<, field writes/reads; EnumCheck (TLC) recomputes every expectation.",
+  note="Landmark values only (edges of 8/16/32/64-bit ranges).",
+  technique="TLA+ enum semantics + TLC validation of observations recorded from generated C++"),
  "C20": dict(
   level="model_checking", design="§3.4, §5 C20",
   text="Two-window actions of View.tla (Equals both ways, TryToCopyFrom both ways with memmove semantics, interleaved writes) generated by TLC, replayed into the real generated code over equal / one-bit-different / padding-different / different-length / truncated / overlapping buffers, validated by TLC (verdicts, complete post-allocation, destination observation vector).",
   note="Equals is only exercised on two Ok views as the C++ reference requires; sampled behaviours, seeded.",
   technique="TLC-generated behaviours replayed into generated C++ + TLC trace validation"),
+}
+
+NOT_CLAIMED = {
+ "C07": "check under construction (see DESIGN.md §10 build order); not claimed yet",
 }
 
 PENDING = "check under construction in this session (see DESIGN.md §10 build order); not claimed yet"
@@ -29,8 +118,8 @@ def main():
     for p in props:
         i = p["id"]
         c = CLAIMS.get(i)
-        if not c:
-            na.append({"property_id": i, "reason": PENDING})
+        if not c or i in NOT_CLAIMED:
+            na.append({"property_id": i, "reason": NOT_CLAIMED.get(i, PENDING)})
             continue
         checks.append({
             "property_id": i,
